@@ -31,9 +31,18 @@ SubCase(exp, fmt) ==
         <<Entry(<< >>, "s1", "k1", Sub(exp, fmt)),
           Entry(<<"s1.k1">>, "in1", "k3", LinkD("in1", <<GoodSig("k3")>>, {}, ProdA))>>, {})
 
+\* the degenerate layout - no steps, no inspections - expires like any other, at the top and when delegated to
+EmptyTop(exp, fmt) ==
+  Build([LayoutD(<<GoodSig("o1")>>, exp, <<"k1">>, << >>, << >>) EXCEPT !.fmt = fmt], Own("o1"), << >>, {})
+EmptySub(exp, fmt) ==
+  Build(Top1(1000, "Z"), Own("o1"),
+        <<Entry(<< >>, "s1", "k1", [LayoutD(<<GoodSig("k1")>>, exp, <<"k3">>, << >>, << >>) EXCEPT !.fmt = fmt])>>, {})
+
 MCInit ==
-  /\ \E exp \in Offsets, fmt \in Fmts, lvl \in {"top", "sub"} :
-       scn = IF lvl = "top" THEN TopCase(exp, fmt) ELSE SubCase(exp, fmt)
+  /\ \/ \E exp \in Offsets, fmt \in Fmts, lvl \in {"top", "sub"} :
+          scn = IF lvl = "top" THEN TopCase(exp, fmt) ELSE SubCase(exp, fmt)
+     \/ \E exp \in Offsets, fmt \in {"Z", "+02:00", "Z.25"}, lvl \in {"top", "sub"} :
+          scn = IF lvl = "top" THEN EmptyTop(exp, fmt) ELSE EmptySub(exp, fmt)
   /\ VInitRest
 
 MCSpec == MCInit /\ [][VNext]_vars
